@@ -148,10 +148,15 @@ def writeBlocks (crc : Bytes → Nat) : FS → Tx → List (Bytes × Bytes) → 
 def finalTx (crc : Bytes → Nat) (t : Tx) (fs : FS) : Tx :=
   t.putKey (bucketizedKey metaID writeLocKey) (writeRow crc fs.curFile fs.curOff)
 
+/-- the user's metadata operations of the transaction: `some v` = Put, `none` = Delete -/
+def applyKvs (t : Tx) (kvs : List (Bytes × Option Bytes)) : Tx :=
+  kvs.foldl (fun t e => match e.2 with
+    | some v => t.putKey (bucketizedKey metaID e.1) v
+    | none => t.deleteKey (bucketizedKey metaID e.1)) t
+
 /-- a whole transaction: metadata puts, block stores, `Commit`.  `true` = died on the way. -/
-def commit (crc : Bytes → Nat) (s : St) (blocks : List (Bytes × Bytes)) (kvs : List (Bytes × Bytes)) : St × Bool :=
-  let t : Tx := { writable := true, snap := s.db.snapshot }
-  let t := kvs.foldl (fun t e => t.putKey (bucketizedKey metaID e.1) e.2) t
+def commit (crc : Bytes → Nat) (s : St) (blocks : List (Bytes × Bytes)) (kvs : List (Bytes × Option Bytes)) : St × Bool :=
+  let t : Tx := applyKvs { writable := true, snap := s.db.snapshot } kvs
   let (fs, t, dead) := writeBlocks crc s.fs t blocks
   if dead then ({ s with fs := fs }, true) else
   let (fs, dead) := hit fs "commit.afterBlocks"
